@@ -475,7 +475,16 @@ class T2(T):
         if e.get("kind") == "DeclRefExpr" and e["referencedDecl"].get("id") in self.locals and \
                 e["referencedDecl"]["name"] in self.spec["locals"]:
             return self.spec["locals"][e["referencedDecl"]["name"]]
+        if e.get("kind") == "MemberExpr" and self.spec.get("mem_regs"):
+            # a memory location read like a variable (0 = FALSE / NULL, 1 = anything else); it is not written in this
+            # function (checked) and every call outside the spec's `pure` list is followed by a havoc of it
+            t = re.sub(r"\s+", "", self.text(e, 400))
+            if t in self.spec["mem_regs"]:
+                return self.spec["mem_regs"][t]
         return None
+
+    def is_mem(self, reg):
+        return reg in (self.spec.get("mem_regs") or {}).values()
 
     def reg_of(self, e):
         return self.local_reg(e)
@@ -487,6 +496,10 @@ class T2(T):
             return True
         if s.get("kind") == "CallExpr" and self.callee(s) in self.spec["cond_calls"]:
             return True
+        if s.get("kind") == "MemberExpr":
+            b = self.local_reg(s["inner"][0])
+            if b is not None and self.is_mem(b):
+                return False        # a read THROUGH the tracked pointer is untracked data
         return any(self.mentions_reg(c) for c in kids(s))
 
     def const_for(self, reg, e):
@@ -497,6 +510,8 @@ class T2(T):
                 if n in vals:
                     return vals[n] + self.spec["offset"].get(reg, 0)
             return None
+        if e.get("kind") in ("GNUNullExpr",):
+            return 0
         v = T.enum_const(self, e)
         return None if v is None else v + self.spec["offset"].get(reg, 0)
 
@@ -513,8 +528,13 @@ class T2(T):
                 out.append(".abort")
             elif name in self.spec["cond_calls"]:
                 raise self.U(f"{name} called outside a condition")
-            elif name != "__builtin_expect":
-                out.append(f"(.ev {self.site(e, 'call ' + str(name))} 0)")
+            elif name in self.spec.get("marked", {}):
+                out.append(f"(.ev {self.site(e, 'marked ' + str(name))} {self.spec['marked'][name]})")
+            elif name != "__builtin_expect" and name not in self.spec.get("pure", ()):
+                st_ = self.site(e, 'call ' + str(name))
+                out.append(f"(.ev {st_} 0)")
+                for r_ in sorted(set((self.spec.get("mem_regs") or {}).values())):
+                    after.append(f"(.havoc {r_} {st_})")
             for a in e["inner"][1:]:
                 a0 = strip(a)
                 if a0.get("kind") == "UnaryOperator" and a0.get("opcode") == "&":
@@ -525,7 +545,7 @@ class T2(T):
                 e.get("opcode") not in ("==", "!=", "<=", ">="):
             l = strip(e["inner"][0])
             if self.local_reg(l) is not None:
-                raise self.U("tracked local assigned inside an expression: " + self.text(e))
+                raise self.U("tracked local / memory location assigned inside an expression: " + self.text(e))
             if not self.is_local_lvalue(l):
                 out.append(f"(.ev {self.site(e, 'store')} 0)")
         elif k == "UnaryOperator" and e.get("opcode") in ("++", "--"):
@@ -626,6 +646,8 @@ class T2(T):
                 return "(.ret 2)"
             e = strip(kids(n)[0])
             reg = self.spec["locals"].get("retval")
+            if reg is None:
+                return self.seq(self.scan(e) + ["(.ret 2)"])
             if self.local_reg(e) == reg:
                 return "(.ret 2)"
             v = self.const_for(reg, e)
@@ -636,7 +658,7 @@ class T2(T):
             e = strip(n)
             if e.get("kind") == "BinaryOperator" and e.get("opcode") == "=":
                 reg = self.local_reg(e["inner"][0])
-                if reg is not None:
+                if reg is not None and not self.is_mem(reg):
                     return self.seq(self.assign(reg, e["inner"][1], e))
         return T.stmt(self, n)
 
@@ -727,3 +749,46 @@ def translate_recv(spec, fdecl, src, consts, U, root):
             f'def fastPadArg : String := "{esc(fast_pad)}"', f'def fullPadArg : String := "{esc(full_pad)}"',
             "", "end Nice.Gen." + spec["lean_ns"], ""]
     return "\n".join(out), {"sites": len(t.sites)}
+
+
+# ---------------------------------------------------------------------------------------------------------------------
+# third skeleton: the send path agent/agent.c nice_agent_send_messages_nonblocking_internal (C13 consent gate)
+# ---------------------------------------------------------------------------------------------------------------------
+SPEC_SEND = {
+    "lean_ns": "SendMessages",
+    "file": "agent/agent.c",
+    "fn": "nice_agent_send_messages_nonblocking_internal",
+    "locals": {},
+    "offset": {},
+    "cond_calls": {},
+    "bool_result_calls": set(),
+    # memory read like variables (under the agent lock)
+    "mem_regs": {"component->selected_pair.local": 0, "component->selected_pair.remote_consent.have": 1},
+    # event kind 3 = hands application data to a transport
+    "marked": {"pseudo_tcp_socket_send_messages": 3, "nice_socket_send_messages": 3, "nice_socket_send_messages_reliable": 3},
+    # calls assumed not to change the two memory locations (everything else havocs them)
+    "pure": {"agent_lock", "agent_find_component", "g_set_error", "g_set_error_literal", "nice_debug_is_enabled",
+             "nice_address_to_string", "nice_debug_verbose", "nice_debug", "nice_address_get_port", "nice_socket_is_reliable",
+             "pseudo_tcp_socket_is_closed", "output_message_get_size", "g_malloc_n", "g_free", "htons", "__bswap_16",
+             "nice_socket_can_send", "g_cancellable_reset", "g_strerror", "__errno_location", "adjust_tcp_clock",
+             "pseudo_tcp_socket_can_send", "g_error_matches", "g_io_error_quark"},
+}
+
+
+def translate_send(spec, fdecl, src, consts, U, root):
+    t = T2(spec, fdecl, src, consts, U, {})
+    prog = t.top()
+    out = [f"/- GENERATED by tools/extract_flow.py from {spec['file']} {spec['fn']} — do not edit.",
+           "   Skeleton of the send path (see lean/Nice/Model/Flow.lean).  Registers (memory read under the agent lock,",
+           "   0 = NULL / FALSE, 1 = anything else; not written in this function; havocked after every call that is not",
+           "   on the list below):"]
+    for k, v in spec["mem_regs"].items():
+        out.append(f"     r{v} = {k}")
+    out += ["   Event kinds: 3 = application data handed to a transport (" + ", ".join(sorted(spec["marked"])) + "), 0 = other call / store.",
+            "   Calls assumed not to change the registers: " + ", ".join(sorted(spec["pure"])),
+            "   Sites:"]
+    for i, d in enumerate(t.sites):
+        out.append(f"     {i} — {d}".replace("/-", "/ -").replace("-/", "- /"))
+    out += ["-/", "import Nice.Model.Flow", "namespace Nice.Gen." + spec["lean_ns"], "open Nice.Flow", "",
+            "def prog : Stmt :=", prog, "", "end Nice.Gen." + spec["lean_ns"], ""]
+    return "\n".join(out), {"sites": len(t.sites), "send_sites": sum(1 for x in t.sites if x.startswith("marked"))}
